@@ -54,6 +54,7 @@ type pkgInfo struct {
 	// token.Token.IsKeyword is literally `tok > keyword_beg && tok < keyword_end`
 	isKeywordIsRange bool
 	assumedLoops     map[token.Pos]bool // loops listed as assumed_progress
+	instCounter      int
 }
 
 func (pk *pkgInfo) posString(p token.Pos) string {
